@@ -116,3 +116,20 @@ Theorem c19_join_of_swallowed_cancellation_hangs : forall r t g st i fails,
   exec_member r (CancelAwait t g st) (TParked i fails) = Hang.
 Proof. exact join_of_swallowing_point_hangs. Qed.
 Print Assumptions c19_join_of_swallowed_cancellation_hangs.
+
+(* "leaves nothing running", at the level of the calculus: a procedure that has completed has left no task of a slot
+   it joins running - each has ended normally, cancelled, or with its exception (general statement, then the three
+   translated procedures; with c19_stop_joins_every_task: every background task of the client) *)
+Theorem c19_completed_leaves_joined_tasks_ended : forall slots env prog,
+  run slots env prog = Completed ->
+  forall stp t, In stp prog -> step_slot stp = Some t ->
+    forallb (fun s => ended (task_after (s_routine (nth t slots default_slot)) stp s)) (nth t env []) = true.
+Proof. intros slots env prog H. exact (completed_leaves_joined_tasks_ended slots env prog 0 H). Qed.
+Print Assumptions c19_completed_leaves_joined_tasks_ended.
+
+Theorem c19_stop_leaves_no_joined_task_running : forall env stp t,
+  env_ok CloseShapes.slots env = true -> step_slot stp = Some t ->
+  (In stp CloseShapes.consumer_group_stop \/ In stp CloseShapes.consumer_nogroup_stop \/ In stp CloseShapes.producer_stop) ->
+  forallb (fun s => ended (task_after (s_routine (nth t CloseShapes.slots default_slot)) stp s)) (nth t env []) = true.
+Proof. exact stop_leaves_no_joined_task_running. Qed.
+Print Assumptions c19_stop_leaves_no_joined_task_running.
